@@ -36,7 +36,17 @@ def main():
         import re
         def failed(rc, out):
             return rc != 0 or re.search(r"^(--- FAIL|FAIL\b|panic:)", out, re.M) is not None
+        def place_demo():
+            for f in meta.get("demo_files", []) or []:
+                src = os.path.join(mdir, os.path.basename(f))
+                dst = os.path.join(wt, f)
+                if os.path.exists(src) and not os.path.exists(dst) and not f.startswith("_mut"):
+                    os.makedirs(os.path.dirname(dst), exist_ok=True)
+                    shutil.copy(src, dst)
+        place_demo()
         rc, out = run(demo, wt)
+        if "no tests to run" in out:
+            rc = 99
         rec["ran"].append({"step": "demo on unchanged tree", "cmd": demo, "exit": rc})
         if failed(rc, out):
             ok = False; rec["problem"] = "demo fails on the unchanged tree: " + out[-600:]
@@ -60,6 +70,7 @@ def main():
                 rec["ran"].append({"step": "existing tests with the change", "cmd": "go test -count=1 " + " ".join(pkgs), "exit": rc, "failures": real})
                 if real:
                     ok = False; rec["problem"] = "existing tests fail with the change: " + "; ".join(real[:5])
+            place_demo()
             rc, out = run(demo, wt)
             rec["ran"].append({"step": "demo with the change", "cmd": demo, "exit": rc, "tail": out[-500:]})
             if not failed(rc, out):
